@@ -153,8 +153,10 @@ ssize_t _GD_Bzip2Read(struct gd_raw_file_ *restrict file, void *restrict data,
     ptr->pos = ptr->end;
 
     if (ptr->stream_end) {
-      dreturn("%li", (long)(nmemb - nbytes / GD_SIZE(data_type)));
-      return nmemb - nbytes / GD_SIZE(data_type);
+      file->pos = (ptr->base + ptr->pos) / GD_SIZE(data_type);
+      dreturn("%li", (long)((nmemb * GD_SIZE(data_type) - nbytes) /
+            GD_SIZE(data_type)));
+      return (nmemb * GD_SIZE(data_type) - nbytes) / GD_SIZE(data_type);
     }
 
     ptr->bzerror = 0;
@@ -190,8 +192,9 @@ ssize_t _GD_Bzip2Read(struct gd_raw_file_ *restrict file, void *restrict data,
 
   file->pos = (ptr->base + ptr->pos) / GD_SIZE(data_type);
 
-  dreturn("%li", (long)(nmemb - nbytes / GD_SIZE(data_type)));
-  return nmemb - nbytes / GD_SIZE(data_type);
+  dreturn("%li", (long)((nmemb * GD_SIZE(data_type) - nbytes) /
+        GD_SIZE(data_type)));
+  return (nmemb * GD_SIZE(data_type) - nbytes) / GD_SIZE(data_type);
 }
 
 ssize_t _GD_Bzip2Write(struct gd_raw_file_ *file, const void *data,
